@@ -104,4 +104,12 @@ TEXT["C17"] = {
     "note": COMMON_NOTE + "The searches themselves are not modelled (oracle correspondence). One genuine defect fixed (repeated detector targets were treated as a self-loop instead of cancelling).",
     "technique": "Lean 4 theorems (soundness + minimality of the exhaustive reference) + oracle correspondence incl. exhaustive MaxSAT evaluation",
 }
+TEXT["C18"] = {
+    "level": "Kernel-checked: the stack-frame resolver of the location checker is sound for every circuit and nesting depth (the resolved index is an occurrence of exactly the reported instruction in the unrolled "
+             "program; every frame's iteration lies inside its REPEAT count). Correspondence: every location returned by explain_errors is re-simulated forwards in the Lean frame model with only the reported "
+             "fault injected and must flip exactly the error's detectors and observables; gate, tags, arguments, target range, tick and every coordinate are compared with the circuit; every error of the "
+             "circuit's model / the filter must be explained.",
+    "note": COMMON_NOTE + "The reverse tracker producing the explanations is not modelled (oracle correspondence).",
+    "technique": "Lean 4 theorems (frame resolution) + oracle correspondence by forward single-fault re-simulation",
+}
 NOT_CLAIMED = {}
